@@ -224,7 +224,10 @@ fn run_rows(cols: &Arc<Vec<Column>>, rows: &[Vec<Val>], st: &mut Stats) -> Resul
     if let ConnResult::Panic(l, m) = &o.res {
         return Err(Violation::new(panic_key(l, m), format!("run_on panicked at {}: {}", l, m)));
     }
-    if o.calls.iter().any(|c| c.res.is_err()) {
+    if let Some(bad) = o.calls.iter().find(|c| c.res.is_err()) {
+        if std::env::var("VERIF_DEBUG_REFUSAL").is_ok() {
+            eprintln!("refused: call {} -> {:?}; run_on returned {}", bad.op, bad.res, o.res.short());
+        }
         // nothing undecodable may have been sent
         match decode_all(delivered(&o), &conv, &s.last_seq, 2, true) {
             Ok(_) => {}
@@ -291,8 +294,8 @@ fn cycle_value(i: usize, row: usize) -> Val {
         2 => Val::U64(u64::MAX - k as u64),
         3 => Val::F64(k as f64 + 0.5),
         4 => Val::Date(NaiveDate::from_ymd_opt(2000 + (k % 20) as i32, 1 + (k % 12) as u32, 1 + (k % 28) as u32).unwrap()),
-        5 => Val::I16(-(k as i16) - 1),
-        6 => Val::Dur(Duration::new(k as u64 * 61 + 1, if k % 2 == 0 { 0 } else { 5000 })),
+        5 => Val::I16(-((k % 30_000) as i16) - 1),
+        6 => Val::Dur(Duration::new((k % 40_000) as u64 * 61 + 1, if k % 2 == 0 { 0 } else { 5000 })),
         7 => Val::F32(k as f32 * 0.25),
         8 => Val::DateTime(NaiveDate::from_ymd_opt(1999, 12, 31).unwrap().and_hms_micro_opt((k % 24) as u32, 59, 58, if k % 3 == 0 { 0 } else { 123456 }).unwrap()),
         9 => Val::I32(-1 - k as i32 * 1000),
